@@ -74,3 +74,27 @@ Proof. vm_compute. reflexivity. Qed.
 Lemma old_shape_clean_run_ok :
   r_ok (update cat stmt (exec_ch false) old_shape cfg_single [] (db0 cat cat0)) = true.
 Proof. vm_compute. reflexivity. Qed.
+
+(* ---- the observation oracle (statements identified by id) never rejects a log of the model *)
+Lemma gen_sids_len k : List.length (gen_sids k) = List.length (gen_scripts k).
+Proof. destruct k; vm_compute; reflexivity. Qed.
+Lemma gen_sids_nonzero k i : i < List.length (gen_sids k) -> sid_at gen_sids k i <> 0%N.
+Proof.
+  intros H. unfold sid_at. pose proof (nth_In (gen_sids k) 0%N H) as HIn.
+  assert (Hall : forallb (fun s => negb (N.eqb s 0)) (gen_sids k) = true) by (destruct k; vm_compute; reflexivity).
+  rewrite forallb_forall in Hall. specialize (Hall _ HIn). apply negb_true_iff in Hall. now apply N.eqb_neq.
+Qed.
+Lemma gen_oracle_accepts : forall (c : cfg) (runs : list (list outcome)),
+  omon_ok gen_sids (map (abs_event gen_sids) (snd (ch_multi c runs (db0 cat cat0)))) = true.
+Proof.
+  intros c runs.
+  exact (oracle_accepts_model_logs cat stmt (exec_ch (cloud c)) gen_scripts gen_sids gen_sids_len gen_sids_nonzero c runs cat0).
+Qed.
+
+(* the hypothesis of noop_when_current is met by a non-trivial database: the one an uninterrupted run of
+   the clustered, replicated configuration (all six streams, 75 statements) ends with *)
+Example noop_hypothesis_met :
+  let c := {| cloud := true; dist := true; clustered := true |} in
+  forallb (fun k => List.length (gen_scripts k) <=? d_vers (expected_final gen_scripts c) k) (streams_of c) = true
+  /\ List.length (c_objs (d_cat (expected_final gen_scripts c))) = 38.
+Proof. vm_compute. split; reflexivity. Qed.
